@@ -5,64 +5,147 @@ package protocol
 import (
 	"context"
 	"crypto/tls"
+	"crypto/x509"
+	"encoding/base64"
 	"errors"
 	"net"
+	"strings"
+	"time"
 
+	"github.com/hashicorp/nodeenrollment"
+	nodetls "github.com/hashicorp/nodeenrollment/tls"
+	"github.com/hashicorp/nodeenrollment/types"
 	"github.com/hashicorp/nodeenrollment/zzverif/vf"
 	"github.com/hashicorp/nodeenrollment/zzverif/vfs"
+	"google.golang.org/protobuf/proto"
+	"google.golang.org/protobuf/types/known/timestamppb"
 )
 
-func init() { VfHarnesses["VerifC14Accept"] = VerifC14Accept }
-
-type vfScriptListener struct {
-	steps []func() (net.Conn, error)
-	next  int
+func init() {
+	VfHarnesses["VerifC14Accept"] = func() { verifC14Accept(false) }
+	VfHarnesses["VerifC14AcceptThenHonest"] = func() { verifC14Accept(true) }
+	VfHarnesses["VerifC14ArbitraryAlpnReal"] = VerifC14ArbitraryAlpnReal
 }
-
-func (l *vfScriptListener) Accept() (net.Conn, error) {
-	if l.next >= len(l.steps) {
-		return nil, net.ErrClosed
-	}
-	l.next++
-	return l.steps[l.next-1]()
-}
-func (l *vfScriptListener) Close() error   { return nil }
-func (l *vfScriptListener) Addr() net.Addr { return nil }
 
 var errBase = errors.New("base listener failure")
 
-// C14 (Accept layer): whatever one peer does, Accept reports it as a temporary error for that connection
-// only; base-listener failures are the only non-temporary errors; net.ErrClosed is passed through.
-func VerifC14Accept() {
+func vfIsTemp(err error) bool {
+	t, ok := err.(interface{ Temporary() bool })
+	return ok && t.Temporary()
+}
+
+// vfHonestAuthPeer is a registered node (universe key 2) dialling correctly: its record is stored in st.
+func vfHonestAuthPeer(ctx context.Context, st *vfs.Storage, cur *types.RootCertificate, curTmpl *x509.Certificate) *vfs.Peer {
+	id, _ := nodeenrollment.KeyIdFromPkix(vf.Pkix(2))
+	if err := (&types.NodeInformation{Id: id, CertificatePublicKeyPkix: vf.Pkix(2)}).Store(ctx, st); err != nil {
+		panic(err)
+	}
+	nonce := []byte("a-fresh-connection-nonce-32-byte")
+	req := &types.GenerateServerCertificatesRequest{CertificatePublicKeyPkix: vf.Pkix(2), Nonce: nonce, NonceSignature: vf.SigBy(2, nonce)}
+	reqBytes, err := proto.Marshal(req)
+	if err != nil {
+		panic(err)
+	}
+	protos, err := nodetls.BreakIntoNextProtos(nodeenrollment.AuthenticateNodeNextProtoV1Prefix, base64.RawStdEncoding.EncodeToString(reqBytes))
+	if err != nil {
+		panic(err)
+	}
+	prefId, _ := nodeenrollment.KeyIdFromPkix(vf.Pkix(0))
+	protos = append(protos, nodeenrollment.CertificatePreferenceV1Prefix+prefId)
+	p := &vfs.Peer{Protos: protos, Chain: [][]byte{vfNodeLeaf(curTmpl, 2, 0, x509.ExtKeyUsageClientAuth)}, HoldsLeafKey: true}
+	p.Conn = vf.AdversaryConn(p.Protos, p.Chain, 2, true)
+	return p
+}
+
+// C14 (Accept layer): whatever one peer does - arbitrary ALPN entries under or outside the library prefixes, bytes
+// that are not TLS, a fatal alert after the server's flight - Accept reports it as a temporary error for that
+// connection only, an honest registered node connecting right afterwards on the same listener is authenticated,
+// base-listener failures are the only non-temporary errors, and net.ErrClosed is passed through.
+func VerifC14Accept()           { verifC14Accept(false) }
+func VerifC14AcceptThenHonest() { verifC14Accept(true) }
+
+// followUp=false: the misbehaving peer's ALPN entries are arbitrary strings. followUp=true: they are fixed malformed
+// entries (a bare library prefix and a non-base64 chunk), and an honest registered node connects right afterwards.
+func verifC14Accept(followUp bool) {
 	ctx := context.Background()
 	st := &vfs.Storage{}
-	// peer 1: arbitrary ALPN entries (may or may not use library prefixes), no certificate
-	p1 := &vfs.Peer{Protos: []string{vf.String("alpn", 40), vf.String("alpn", 40)}}
-	p1.Conn = vf.AdversaryConn(p1.Protos, nil, 0, false)
-	base := &vfScriptListener{}
-	base.steps = []func() (net.Conn, error){
-		func() (net.Conn, error) { return p1, nil },
-		func() (net.Conn, error) { return nil, errBase },
+	t0 := vf.Now()
+	cur, curTmpl := vfs.MkRoot("current", 0, t0.Add(-time.Hour), t0.Add(time.Hour))
+	next, _ := vfs.MkRoot("next", 1, t0.Add(-time.Hour), t0.Add(time.Hour))
+	if err := (&types.RootCertificates{Id: nodeenrollment.RootsMessageId, Current: cur, Next: next}).Store(ctx, st); err != nil {
+		panic(err)
 	}
-	l, err := NewInterceptingListener(&InterceptingListenerConfiguration{Context: ctx, Storage: st, BaseListener: base,
-		BaseTlsConfiguration: &tls.Config{NextProtos: []string{"app"}, Certificates: []tls.Certificate{{}}}})
+	// the misbehaving peer
+	p1 := &vfs.Peer{AbortErr: vfs.RemoteAbort{}}
+	kind := vf.Int("peer-kind", 0, 2)
+	switch kind {
+	case 0: // arbitrary ALPN entries (TLS cannot carry an empty name)
+		a, b := vf.String("alpn", 40), vf.String("alpn", 40)
+		vf.Assume(vf.And(len(a) >= 1, len(b) >= 1))
+		p1.Protos = []string{a, b}
+		if followUp {
+			p1.Protos = []string{nodeenrollment.AuthenticateNodeNextProtoV1Prefix, nodeenrollment.FetchNodeCredsNextProtoV1Prefix + "00-!!not base64!!"}
+		}
+	case 1: // not TLS at all
+		p1.NotTLS = true
+	default: // an unregistered node's well-formed fetch, aborted with a fatal alert once the server has answered
+		info := &types.FetchNodeCredentialsInfo{CertificatePublicKeyPkix: vf.Pkix(3), CertificatePublicKeyType: types.KEYTYPE_ED25519,
+			Nonce: []byte("an-unregistered-nodes-nonce-32-b"), EncryptionPublicKeyBytes: vf.X25519Pub(0), EncryptionPublicKeyType: types.KEYTYPE_X25519,
+			NotBefore: timestamppb.New(t0.Add(-time.Hour)), NotAfter: timestamppb.New(t0.Add(time.Hour))}
+		bundle, _ := proto.Marshal(info)
+		reqBytes, _ := proto.Marshal(&types.FetchNodeCredentialsRequest{Bundle: bundle, BundleSignature: vf.SigBy(3, bundle)})
+		p1.Protos, _ = nodetls.BreakIntoNextProtos(nodeenrollment.FetchNodeCredsNextProtoV1Prefix, base64.RawStdEncoding.EncodeToString(reqBytes))
+		p1.Abort = true
+	}
+	p1.Conn = vf.AdversaryConnMode(p1.Protos, nil, 0, false, p1.NotTLS, p1.Abort)
+	base := &vfs.Script{Conns: []net.Conn{p1, nil, nil}, Errs: []error{nil, nil, errBase}}
+	if followUp {
+		base = &vfs.Script{Conns: []net.Conn{p1, nil, vfHonestAuthPeer(ctx, st, cur, curTmpl), nil}, Errs: []error{nil, nil, nil, errBase}}
+	}
+	var baseCfg *tls.Config
+	if vf.Bool("application-has-a-base-tls-configuration") {
+		baseCfg = &tls.Config{NextProtos: []string{"app"}}
+	}
+	l, err := NewInterceptingListener(&InterceptingListenerConfiguration{Context: ctx, Storage: st, BaseListener: base, BaseTlsConfiguration: baseCfg})
 	vf.Assert("listener-built", err == nil)
 
-	isTemp := func(err error) bool {
-		t, ok := err.(interface{ Temporary() bool })
-		return ok && t.Temporary()
-	}
 	c1, e1 := l.Accept()
 	if e1 != nil {
 		vf.Reach("peer-rejected")
-		vf.Assert("peer-caused-error-is-temporary", isTemp(e1))
+		vf.Assert("peer-caused-error-is-temporary", vfIsTemp(e1))
 		vf.Assert("no-conn-with-error", c1 == nil)
 	} else {
-		vf.Reach("peer-accepted-unauthenticated")
+		vf.Reach("peer-accepted")
+		vf.Assert("misbehaving-peer-is-not-authenticated", !strings.HasPrefix(c1.(*Conn).ConnectionState().NegotiatedProtocol, nodeenrollment.AuthenticateNodeNextProtoV1Prefix))
 	}
-	_, e2 := l.Accept()
-	vf.Assert("base-listener-error-is-not-temporary", vf.And(e2 != nil, !isTemp(e2)))
+	// the nil connection of the script is skipped; the honest node is next
+	if followUp {
+		c2, e2 := l.Accept()
+		vf.Assume(vf.TimeLE(vf.Now(), t0.Add(time.Second)))
+		vf.Assert("honest-node-still-connects", e2 == nil)
+		if e2 == nil {
+			vf.Reach("honest-node-connected")
+			vf.Assert("honest-node-is-authenticated", strings.HasPrefix(c2.(*Conn).ConnectionState().NegotiatedProtocol, nodeenrollment.AuthenticateNodeNextProtoV1Prefix))
+		}
+	}
 	_, e3 := l.Accept()
-	vf.Assert("closed-is-passed-through", errors.Is(e3, net.ErrClosed))
+	vf.Assert("base-listener-error-is-not-temporary", vf.And(e3 != nil, !vfIsTemp(e3)))
+	_, e4 := l.Accept()
+	vf.Assert("closed-is-passed-through", errors.Is(e4, net.ErrClosed))
+	vf.Reach("end")
+}
+
+// C14 (ALPN layer, real callees): the TLS callback on two arbitrary ALPN strings with the real fetch and
+// certificate-generation functions behind it (whatever decodes flows into them with arbitrary field values).
+func VerifC14ArbitraryAlpnReal() {
+	ctx := context.Background()
+	st := &vfs.Storage{}
+	vfs.StoreRoots(ctx, st, vf.Now())
+	l, err := NewInterceptingListener(&InterceptingListenerConfiguration{Context: ctx, Storage: st, BaseListener: &vfs.Script{}})
+	vf.Assert("listener-built", err == nil)
+	var ci ClientInfo
+	a, b := vf.String("p", 48), vf.String("p", 48)
+	vf.Assume(vf.And(len(a) >= 1, len(b) >= 1))
+	_, _ = l.getTlsConfigForClient(&ci)(&tls.ClientHelloInfo{SupportedProtos: []string{a, b}})
 	vf.Reach("end")
 }
